@@ -1,4 +1,4 @@
-import KalignModel.Props.C05
+import KalignModel.Props.C05All
 #print axioms Kalign.C05_read_never_faults
 #print axioms Kalign.C05_read_many_never_faults
 #print axioms Kalign.C05_codes_in_range
@@ -7,3 +7,11 @@ import KalignModel.Props.C05
 #print axioms Kalign.C05_write_in_bounds
 #print axioms Kalign.C07_hirschberg_path_ok
 #print axioms Kalign.C07_columns_valid
+#print axioms Kalign.Pipeline.kalignRun_never_fuel
+#print axioms Kalign.Pipeline.kalignRun_never_tree_partial
+#print axioms Kalign.Pipeline.kalignRun_never_fault_monitor_partial
+#print axioms Kalign.Pipeline.kalignRun_never_faults_partial
+#print axioms Kalign.Pipeline.kalignRun_errors_partial
+#print axioms Kalign.C05_controller_never_faults
+#print axioms Kalign.C05_doAlign_no_fault_partial
+#print axioms Kalign.C05_path_read_in_bounds
